@@ -11,6 +11,7 @@ import (
 	"encoding/hex"
 	"fmt"
 	"sort"
+	"strings"
 	"testing"
 
 	"github.com/gmrtd/gmrtd/document"
@@ -28,8 +29,18 @@ const prop = "C11"
 func TestMain(m *testing.M) { evid.Main(m, prop) }
 
 type config struct {
-	name string
-	o    persona.Opts
+	name   string
+	o      persona.Opts
+	maxLe  int // reader's maximum read size (0 = 96)
+	pwKind int
+}
+
+func (c config) readOpts() readcheck.ReadOpts {
+	le := c.maxLe
+	if le == 0 {
+		le = 96
+	}
+	return readcheck.ReadOpts{LibSeed: []byte(c.name), MaxLe: le, PwKind: c.pwKind}
 }
 
 func configs() []config {
@@ -40,29 +51,38 @@ func configs() []config {
 	{
 		o := base("c11-bac-aa-rsa")
 		o.Access, o.AA, o.AARSABits = "BAC", "RSA", 1024
-		out = append(out, config{"BAC+AA-RSA", o})
+		out = append(out, config{name: "BAC+AA-RSA", o: o})
 	}
 	{
 		o := base("c11-pace-ca")
 		o.Access, o.CA, o.CACipher = "PACE+BAC", true, "AES-128"
-		out = append(out, config{"PACE-GM+CA", o})
+		out = append(out, config{name: "PACE-GM+CA", o: o})
 	}
 	{
 		o := base("c11-cam")
 		o.Access = "PACE-CAM"
-		out = append(out, config{"PACE-CAM", o})
+		out = append(out, config{name: "PACE-CAM", o: o})
 	}
 	{
 		o := base("c11-pace-aa-ec")
 		o.Access, o.AA, o.AACurve, o.CA = "PACE", "ECDSA", "P-256", true
 		o.PaceCipher = "3DES"
-		out = append(out, config{"PACE-GM+AA-ECDSA+CA", o})
+		out = append(out, config{name: "PACE-GM+AA-ECDSA+CA", o: o})
 	}
 	{
 		o := base("c11-bac-only")
 		o.Access = "BAC"
 		o.DGs = []int{2, 11}
-		out = append(out, config{"BAC-only", o})
+		out = append(out, config{name: "BAC-only", o: o})
+	}
+	{
+		// a chip without access control read with full-size (256-byte) chunks: every response travels
+		// unprotected, so the reader's own length / offset bookkeeping is all that guards the files
+		o := base("c11-open-chip")
+		o.Access = "NONE"
+		o.DGs = []int{2, 11}
+		o.MaxImage = 700
+		out = append(out, config{name: "no-access-control-256", o: o, maxLe: 256, pwKind: 3})
 	}
 	return out
 }
@@ -162,10 +182,16 @@ type injector struct {
 	// exist": the status 6A82 / 6283 on a SELECT sent without secure messaging.  (With several
 	// faults in one read a silently missing file is attributed to such a fault if one fired.)
 	Absence bool
+	// Garbled: a fault fired that alters content without altering length or framing (bit flips,
+	// a repeated earlier response): on an UNPROTECTED read no reader can notice it by itself.
+	Garbled bool
 }
 
 func (in *injector) noteFault(fk int, cla, ins int) {
 	name := faultKinds[fk].name
+	if strings.HasPrefix(name, "garbled-") || name == "previous-repeated" {
+		in.Garbled = true
+	}
 	if (name == "sw-6a82" || name == "sw-6283") && cla&0x0C == 0 && ins == 0xA4 {
 		in.Absence = true
 	}
@@ -233,7 +259,7 @@ func faultFree(t *testing.T, c config) *baseline {
 	}
 	chip := p.NewChip()
 	in := &injector{chip: chip, plan: map[int]int{}}
-	r, err := readcheck.Read(p, in, readcheck.ReadOpts{LibSeed: []byte(c.name), MaxLe: 96})
+	r, err := readcheck.Read(p, in, c.readOpts())
 	if err != nil {
 		evid.Infra(t, "fault-free read setup (%s): %v", c.name, err)
 	}
@@ -272,7 +298,7 @@ func runFaulted(t interface {
 				evid.Fail(t, check+"-panic", rep, "panic escaped ReadDocument: %v", e)
 			}
 		}()
-		r, err = readcheck.Read(b.p, in, readcheck.ReadOpts{LibSeed: []byte(c.name), MaxLe: 96})
+		r, err = readcheck.Read(b.p, in, c.readOpts())
 	}()
 	if err != nil {
 		evid.Fail(t, check+"-setup", rep, "%v", err)
@@ -302,7 +328,9 @@ func runFaulted(t interface {
 		if !b.p.Opts.Trusted {
 			evid.Fail(t, check+"-trust", rep, "data trusted although the issuer is not in the trust store")
 		}
-		if msg := readcheck.FilesEqualChip(b.p, &r.DocEx.Document); msg != "" {
+		if msg := readcheck.FilesEqualChip(b.p, &r.DocEx.Document); msg != "" && !(b.p.Cfg.OpenLDS && in.Garbled) {
+			// (on a chip without access control a content-altering fault can change octets that nothing
+			// authenticates; filesOK above has already required every data group to be exact under trust)
 			evid.Fail(t, check+"-trust", rep, "data trusted although %s", msg)
 		}
 		got := readcheck.DocFiles(&r.DocEx.Document)
@@ -384,6 +412,18 @@ func filesOK(p *persona.Persona, r *readcheck.Result, in *injector) string {
 		if name == "CardAccess" && in.Changed {
 			if _, hasDG14 := got["DG14"]; hasDG14 && r.DocEx.Summary().DataTrusted {
 				return "EF.CardAccess differs from the chip's file and DG14 was read, yet data is trusted"
+			}
+			continue
+		}
+		if p.Cfg.OpenLDS && in.Garbled && ok {
+			// a chip without access control: responses carry no MAC, so a fault that alters content
+			// but neither length nor framing is invisible to the read itself; passive authentication
+			// is what catches it for the files the security object covers
+			// (every octet of a data group is hashed; of EF.SOD only the signed parts are authenticated,
+			// and EF.COM / EF.DIR are covered by nothing)
+			covered := strings.HasPrefix(name, "DG")
+			if covered && r.DocEx.Summary().DataTrusted {
+				return fmt.Sprintf("file %s differs from the chip's file (unprotected read hit by a content-altering fault), yet data is trusted", name)
 			}
 			continue
 		}
@@ -475,7 +515,7 @@ func TestPersistentFaults(t *testing.T) {
 				limit := 20*b.exchanges + 1100
 				in := &injector{chip: chip, plan: plan, MaxCalls: limit}
 				rep := map[string]any{"config": c.name, "from": k, "fault": faultKinds[f].name}
-				r, err := readcheck.Read(b.p, in, readcheck.ReadOpts{LibSeed: []byte(c.name), MaxLe: 96})
+				r, err := readcheck.Read(b.p, in, c.readOpts())
 				if err != nil {
 					evid.Fail(t, "persistent-setup", rep, "%v", err)
 				}
